@@ -35,6 +35,7 @@ def run(ctx):
     ctx.rule(kaldi_pipeline)
     ctx.rule(torch_pipeline)
     ctx.rule(attrs)
+    ctx.rule(reiterable_processors)
     ctx.rule(exclusions)
     ctx.rule(cc.manifest_filter, "R-C09-manifest-exact", prog.func("command_line.signals_to_torch_feat_dir"))
     ctx.rule(config_syntax)
@@ -44,6 +45,59 @@ def run(ctx):
     ctx.rule(torch_port_geometry)
     ctx.rule(torch_port_spectrum)
     ctx.rule(torch_port_reductions)
+
+
+def reiterable_processors(ctx, R="R-C09-pipeline"):
+    """Both tools walk their lists of pre- and post-processors once per utterance.  What is walked must be a real sequence: a
+    one-shot iterator (map / filter / zip object, generator expression, the result of a generator function) is exhausted by the
+    first utterance and every later one silently gets no processing at all."""
+    prog = ctx.prog
+    what = "the processors applied to every utterance are held in a sequence that can be walked again (not a one-shot iterator)"
+    ONE_SHOT = ("map", "filter", "zip", "iter", "reversed", "enumerate")
+
+    def gen_function(fn_info):
+        return fn_info is not None and any(isinstance(x, (ast.Yield, ast.YieldFrom)) for x in fn_info.body_nodes())
+
+    def one_shot(f, v, depth=0):
+        if isinstance(v, ast.GeneratorExp):
+            return "a generator expression"
+        if isinstance(v, ast.Call):
+            if isinstance(v.func, ast.Name) and v.func.id in ONE_SHOT and prog.resolve(f.module, v.func, f) is None:
+                return "a %s object" % v.func.id
+            t = prog.resolve(f.module, v.func, f)
+            from ..model import FunctionInfo as _FI
+            if isinstance(t, _FI) and gen_function(t):
+                return "the generator returned by %s" % t.name
+        if isinstance(v, ast.Name) and depth < 3:
+            vals = [n.value for n in f.body_nodes() if isinstance(n, ast.Assign) and any(astq.is_name(t_, v.id) for t_ in n.targets)]
+            hits = [one_shot(f, x, depth + 1) for x in vals]
+            if vals and hits[-1] is not None:
+                return hits[-1]  # the last binding in source order (the lists are re-bound when wrapped for torch)
+        return None
+    n = 0
+    for tool_name in ("command_line.compute_feats_from_kaldi_tables", "command_line.signals_to_torch_feat_dir"):
+        tool = prog.func(tool_name)
+        # the processors walked in the tool's own utterance loop
+        for lp in [x for x in tool.body_nodes() if isinstance(x, ast.For)]:
+            inner = [y for y in ast.walk(lp) if isinstance(y, ast.For) and y is not lp and isinstance(y.iter, ast.Name) and "processor" in y.iter.id]
+            for y in inner:
+                n += 1
+                why = one_shot(tool, y.iter)
+                if why:
+                    ctx.bad(R, tool, y, "`%s` is walked once per utterance but is %s: it is empty from the second utterance on" % (y.iter.id, why), what, robust=True)
+        # the processors handed to the dataset
+        for c in astq.func_calls(tool):
+            t = prog.resolve(tool.module, c.func, tool)
+            if getattr(t, "name", None) == "_FeatureProcessorDataset":
+                for a in list(c.args) + [k.value for k in c.keywords]:
+                    if isinstance(a, ast.Name) and "processor" in a.id:
+                        n += 1
+                        why = one_shot(tool, a)
+                        if why:
+                            ctx.bad(R, tool, c, "`%s`, which the dataset walks for every utterance (and every worker process), is %s: after the first utterance it is "
+                                    "exhausted and the remaining utterances are stored without that processing" % (a.id, why), what, robust=True)
+    ctx.floor(R + "/processor-collections", n, 4)
+    ctx.ok(R, "src/pydrobert/speech/command_line.py", what, "%d collections inspected" % n)
 
 
 # ----------------------------------------------------------------- helpers
